@@ -113,7 +113,7 @@ def run(case: dict, ctx) -> dict:
     rounds = rng.choice([1, 2, 10, 1000, rng.randrange(1, 2001)])
     if case["i"] % 23 == 5:
         rounds = rng.choice([100_001, 250_000, 600_000])  # what current products write (the count is a 32-bit decimal; nothing bounds it)
-    salt = bytes(rng.randrange(256) for _ in range(rng.choice([8, 16, 32, rng.randrange(8, 33)])))
+    salt = bytes(rng.randrange(256) for _ in range(rng.choice([8, 16, 32, rng.randrange(8, 33), rng.randrange(0, 8), 0])))
     data_key = bytes(rng.randrange(256) for _ in range(ks))
     dict_style = rng.choice(["full", "vmware", "vmware"])
     if dict_style == "vmware" and rng.random() < 0.5:
@@ -207,7 +207,7 @@ def run(case: dict, ctx) -> dict:
                                 "detail": {"combo": combo, "outcome": orr.brief()}})
     # ---- the same locator parameters (id, KDF, cipher, rounds, passphrase) with other salts, in this same process:
     # the derived key is a function of the salt too
-    for salt2 in (bytes(rng.randrange(256) for _ in range(len(salt))), salt[:-1] + bytes([salt[-1] ^ 0x01]), salt + b"\x00"):
+    for salt2 in (bytes(rng.randrange(256) for _ in range(max(len(salt), 1))), (salt[:-1] + bytes([salt[-1] ^ 0x01])) if salt else b"\x01", salt + b"\x00"):
         if res["viol"]:
             break
         dk2 = bytes(rng.randrange(256) for _ in range(ks))
